@@ -512,8 +512,21 @@ def c20_scenarios(tier, seed):
             doc = ("Does %s things" % nm) if rnd.random() < 0.6 else ""
             tasks.append({"name": nm, "doc": doc, "deps": deps, "cmds": cmds, "hasfile": rnd.random() < 0.5})
         nv = rnd.randint(0, 5)
-        vars_ = [{"name": "VAR%s" % "ABCDE"[i], "value": rnd.choice(["one", "two words", "x=y", "3"])} for i in range(nv)]
-        text = "".join('%s := "%s"\n' % (v["name"], v["value"]) for v in vars_) + "\n"
+        vars_ = []
+        text = ""
+        for i in range(nv):
+            nm, vk = "VAR%s" % "ABCDE"[i], rnd.choice(["str", "str", "join", "exec"])
+            if vk == "str":
+                val = rnd.choice(["one", "two words", "x=y", "3"])
+                text += '%s := "%s"\n' % (nm, val)
+            elif vk == "join":
+                val = "@PROJ@/gen/out"                         # completed with the sandbox path after the run
+                text += '%s := join("gen", "out")\n' % nm
+            else:
+                val = "hi there"
+                text += '%s := exec("echo hi there")\n' % nm
+            vars_.append({"name": nm, "value": val})
+        text += "\n"
         files = [{"p": "proj/", "dir": True}]
         for t in tasks:
             args = (['"%s.txt"' % t["name"]] if t["hasfile"] else []) + t["deps"]
@@ -550,7 +563,8 @@ def rec_c20(s, mt, r):
     logp = os.path.join(os.path.dirname(r["home"]), "effects.log")
     sc = {"tasks": [{"name": t["name"], "doc": t["doc"], "deps": t["deps"], "hasfile": t["hasfile"],
                      "cmds": [{"text": c["text"].replace(LOG, logp), "out": c["out"], "err": c["err"], "marker": c["marker"]} for c in t["cmds"]]} for t in mt["tasks"]],
-          "vars": mt["vars"], "req": mt["req"], "closure": mt["closure"]}
+          "vars": [{"name": x["name"], "value": x["value"].replace("@PROJ@", os.path.join(r["home"], "proj"))} for x in mt["vars"]],
+          "req": mt["req"], "closure": mt["closure"]}
     steps, views = [], []
     for mode, st in zip(mt["modes"], r["steps"]):
         v = {"mode": mode, "json_ok": False, "doc": [], "rows": [], "sorted": True, "listing": False, "closure": mt["closure"]}
